@@ -497,6 +497,21 @@ impl<'a> Gen<'a> {
 
     fn int_expr(&mut self, i: Ity, d: u32) -> Expr {
         let t = Ty::Int(i);
+        if self.chance(8) {
+            // wrapping / saturating arithmetic (same type as the operands)
+            self.stats.hit("wrapping_saturating");
+            let k = if self.rng.bool() { ArithK::Wrapping } else { ArithK::Saturating };
+            let ops: &[Binop] = if i.signed() { &[Binop::Add, Binop::Sub] } else { &[Binop::Add, Binop::Sub, Binop::Mul] };
+            let o = *self.rng.pick(ops);
+            let a = self.expr(&t, d);
+            let b = self.expr(&t, d);
+            return Expr::Arith(k, o, t, Box::new(a), Box::new(b));
+        }
+        if self.chance(3) {
+            self.stats.hit("box_roundtrip");
+            let a = self.expr(&t, d);
+            return Expr::Unbox(Box::new(Expr::BoxNew(Box::new(a))));
+        }
         let k = self.rng.below(100);
         if k < 60 {
             let ops: &[Binop] = if i.signed() {
@@ -970,6 +985,40 @@ impl<'a> Gen<'a> {
                 let e = self.expr(&t, d);
                 return Some(Stmt::Expr(Expr::ArrAppend(x, Box::new(e))));
             }
+        }
+        if self.feat.tuples && self.chance(10) {
+            let tups: Vec<(usize, Ty)> = self
+                .scope
+                .iter()
+                .filter(|v| matches!(v.ty, Ty::Tup(ref ts) if !ts.is_empty()) || matches!(v.ty, Ty::Struct(_)))
+                .map(|v| (v.id, v.ty.clone()))
+                .collect();
+            if !tups.is_empty() {
+                self.stats.hit("let_destructure");
+                let (x, t) = self.rng.pick(&tups).clone();
+                let ms = self.prog.members(&t);
+                let xs: Vec<usize> = ms.iter().map(|_| self.fresh()).collect();
+                for (y, mt) in xs.iter().zip(ms) {
+                    self.scope.push(Var { id: *y, ty: mt, assignable: true });
+                }
+                return Some(Stmt::LetTup(xs, t, Expr::Var(x)));
+            }
+        }
+        if self.chance(5) {
+            self.stats.hit("checked_overflowing");
+            let i = *self.rng.pick(&ITYS);
+            let t = Ty::Int(i);
+            let o = *self.rng.pick(&[Binop::Add, Binop::Sub]);
+            let a = self.expr(&t, d);
+            let b = self.expr(&t, d);
+            let (k, rt) = if self.rng.bool() {
+                (ArithK::Checked, Ty::Opt(Box::new(t.clone())))
+            } else {
+                (ArithK::Overflowing, Ty::Tup(vec![t.clone(), Ty::Bool]))
+            };
+            let x = self.fresh();
+            self.scope.push(Var { id: x, ty: rt.clone(), assignable: true });
+            return Some(Stmt::Let(x, rt, Expr::Arith(k, o, t, Box::new(a), Box::new(b))));
         }
         if k < 96 {
             // a call (for its value and its effects on `ref` arguments): pick the callee first
